@@ -194,6 +194,53 @@ theorem get_mut_eq (key : α → κ) (P : Nat) (m : ASet α) (hle : m.len ≤ m.
   | error e => rfl
   | ok r => cases r <;> rfl
 
+/-- An insertion point returned by the search never lies beyond the count (whatever the slots hold): what makes the
+    range `index..len` of the safe `copy_within` form of the shift well-formed. -/
+theorem search_absent_le (key : α → κ) (vals : List α) (x : κ) :
+    ∀ (fuel s e : Nat) (ps : List Nat) (i : Nat) (ps' : List Nat), s ≤ e + 1 →
+      ASet.search key vals x fuel s e ps = .ok (.absent i, ps') → i ≤ e + 1 := by
+  intro fuel
+  induction fuel with
+  | zero =>
+    intro s e ps i ps' hs h
+    simp only [ASet.search, Except.ok.injEq, Prod.mk.injEq, Idx.absent.injEq] at h
+    omega
+  | succ n ih =>
+    intro s e ps i ps' hs h
+    unfold ASet.search at h
+    split at h
+    · rename_i hse
+      simp only at h
+      split at h
+      · cases h
+      · rename_i y hy
+        split at h
+        · split at h
+          · simp only [Except.ok.injEq, Prod.mk.injEq, Idx.absent.injEq] at h; omega
+          · have := ih _ _ _ _ _ (by omega) h
+            omega
+        · split at h
+          · have := ih _ _ _ _ _ (by omega) h
+            omega
+          · simp at h
+    · simp only [Except.ok.injEq, Prod.mk.injEq, Idx.absent.injEq] at h; omega
+
+theorem index_absent_le (key : α → κ) (s : ASet α) (x : κ) (i : Nat)
+    (h : s.index key x = .ok (.absent i)) : i ≤ s.len := by
+  unfold ASet.index ASet.indexP at h
+  split at h
+  · simp [Except.map] at h; omega
+  · rename_i h0
+    cases hs : ASet.search key s.vals x (s.len + 1) 0 (s.len - 1) [] with
+    | error e => rw [hs] at h; simp [Except.map] at h
+    | ok r =>
+      obtain ⟨r1, ps'⟩ := r
+      rw [hs] at h
+      simp only [Except.map, Except.ok.injEq] at h
+      subst h
+      have := search_absent_le key s.vals x _ _ _ _ _ _ (by omega) hs
+      omega
+
 theorem insert_eq (key : α → κ) (P : Nat) (m : ASet α) (hle : m.len ≤ m.vals.length) (x : α) :
     insert key P m x = (ASet.insert key P m x).toOption := by
   unfold insert ASet.insert
@@ -210,6 +257,9 @@ theorem insert_eq (key : α → κ) (P : Nat) (m : ASet α) (hle : m.len ≤ m.v
         simp only [Except.toOption, Option.map_some, Idx.pair, Option.bind_eq_bind, Option.bind_some, Nat.zero_add]
         have e1 : 1 + i = i + 1 := Nat.add_comm 1 i
         try simp only [e1]
+        -- (`copy_within(index..len, index + 1)` panics when `index > len`: it never is)
+        have hil : i ≤ m.len := index_absent_le key m (key x) i hi
+        try simp only [hil, not_true_eq_false, if_false]
         cases hc : ASet.copyWithin m.vals i (i + 1) (m.len - i) with
         | error e => rfl
         | ok vals' =>
